@@ -196,6 +196,7 @@ func TestC17(t *testing.T) {
 		cfg := baseConfig()
 		cfg.ExtraImports = true
 		cs := caseOf(cfg, []string{f.RelPath}, f)
+		countShapes(c, f, cs.Config)
 		rc := &RunCase{Case: cs}
 		addDoc := func(v jv.V, label, rule string, nt bool) {
 			text := string(v.Marshal())
